@@ -1,6 +1,7 @@
 package analyzer
 
 import (
+	"errors"
 	"fmt"
 	"log"
 	"path/filepath"
@@ -112,6 +113,9 @@ func prepareGocritic() (*gocritic, error) {
 func newGocritic() (*gocritic, error) {
 	critic := &gocritic{
 		infoList: filterCheckersList(registeredCheckers),
+	}
+	if len(critic.infoList) == 0 {
+		return nil, errors.New("empty checkers set selected")
 	}
 
 	ver, err := linter.ParseGoVersion(flagGoVersion)
